@@ -116,6 +116,8 @@ var vttTagPool = []vttTag{
 	{Name: "b"}, {Name: "i"}, {Name: "u"}, {Name: "c"}, {Name: "c", Classes: []string{"red"}}, {Name: "c", Classes: []string{"blue"}},
 	{Name: "c", Classes: []string{"yellow", "bg_blue"}}, {Name: "lang", Annotation: "en"}, {Name: "lang", Annotation: "fr-CA"},
 	{Name: "ruby"}, {Name: "rt"}, {Name: "b", Classes: []string{"loud"}}, {Name: "i", Classes: []string{"x1", "y2", "z3"}},
+	// classes and an annotation on the same tag
+	{Name: "lang", Classes: []string{"formal"}, Annotation: "en-GB"}, {Name: "lang", Classes: []string{"a", "b"}, Annotation: "de"},
 }
 
 func vttGenModel(r *fw.Rand, forWriter bool) vttModel {
@@ -950,6 +952,41 @@ func c02Writer(c *fw.Ctx) fw.Outcome {
 		return fw.Bad(key, string(doc), "WebVTT writer -> library reader: %s\ndocument: %q", firstDiff(exp, have), trunc(string(doc), 1200))
 	}
 	c.Feature(fmt.Sprintf("write cues=%d regions=%d styles=%d map=%v", len(model.Cues), len(model.Regions), len(model.Styles), model.TSMap != nil))
+	if c.Idx%4 == 1 {
+		// runs coloured by a list that came from TTML: hexadecimal colours are the same colour in either letter case,
+		// so the same list with its colours in upper case is written to the same bytes (whatever the writer makes of them)
+		palette := []string{"#ff0000", "#00ff00", "#ffff00", "#00ffff", "#ff00ff", "#abcdef", "#0000ff"}
+		paint := func(upper bool) []byte {
+			k := 0
+			for _, it := range sub.Items {
+				for li := range it.Lines {
+					for ri := range it.Lines[li].Items {
+						col := palette[k%len(palette)]
+						if upper {
+							col = strings.ToUpper(col)
+						}
+						sa := it.Lines[li].Items[ri].InlineStyle
+						if sa == nil {
+							sa = &astisub.StyleAttributes{}
+							it.Lines[li].Items[ri].InlineStyle = sa
+						}
+						sa.TTMLColor = &col
+						k++
+					}
+				}
+			}
+			var b bytes.Buffer
+			if p := guard(func() { err = sub.WriteToWebVTT(&b) }); p != "" || err != nil {
+				return []byte("writer failed: " + p)
+			}
+			return b.Bytes()
+		}
+		lower, upper := paint(false), paint(true)
+		if !bytes.Equal(lower, upper) {
+			return fw.Bad(key, string(lower), "WebVTT writer: the same list with its run colours written #ff0000-style and #FF0000-style gives different documents: %s", firstDiff(string(lower), string(upper)))
+		}
+		c.Count("colour_case_pairs", 1)
+	}
 	c.Count("writer_documents", 1)
 	return fw.OK(key, map[string]interface{}{"direction": "write", "document": trunc(string(doc), 500)})
 }
